@@ -58,7 +58,12 @@ Definition std_files : list (bytes * N) :=
    ([115;97;102;101;47;91;120;93;46;116;120;116], 7);
    ([115;97;102;101;47;195;188;46;116;120;116], 8);
    ([115;97;102;101;47;115;117;98;47;100;101;101;112;47;101;46;116;120;116], 9);
-   ([115;97;102;101;47;45;46;116;120;116], 10)].
+   ([115;97;102;101;47;45;46;116;120;116], 10);
+   (* the same names in another letter case: SAFE/a.txt safe/A.txt safe/a.TXT safe/sub/C.txt *)
+   ([83;65;70;69;47;97;46;116;120;116], 11);
+   ([115;97;102;101;47;65;46;116;120;116], 12);
+   ([115;97;102;101;47;97;46;84;88;84], 13);
+   ([115;97;102;101;47;115;117;98;47;67;46;116;120;116], 14)].
 
 Definition host_extras : list bytes :=
   [[47;101;116;99;47;112;97;115;115;119;100];
@@ -106,13 +111,15 @@ Definition mk_flt (r : row) : flt :=
 Inductive eop :=
   | op_add (loc : pstr) (white : bool)
   | op_set (old new : pstr) (enabled white : bool)
-  | op_refresh (white : bool).
+  | op_refresh (white : bool)
+  | op_periodic (due : list pstr).
 
 Definition dec_op (root : bytes) (o : eop) : op :=
   match o with
   | op_add l w => OAdd (dec root l) w
   | op_set o n e w => OSetUrl (dec root o) (dec root n) e w
   | op_refresh w => ORefresh w
+  | op_periodic due => OPeriodic (map (dec root) due)
   end.
 
 Definition eobs := (N * N * list prow * list prow)%type.
